@@ -1051,6 +1051,75 @@ fn eval_reserved(ctx: &Ctx, case: &ReservedCase) -> Verdict {
             (pat, rep)
         }
     };
+    if case.field >= 3 {
+        // the other value classes: a FORMAT field appended by hand to the first record (GT only) --
+        // int8 vector, int16 scalar, int32 scalar, int32 vector, float vector -- one of whose values
+        // is a reserved bit pattern
+        let plain = CallSet {
+            records: cs.records.iter().map(|r| crate::gen::callset::Record { fmt_dp: false, info: 0, ..r.clone() }).collect(),
+            ..cs.clone()
+        };
+        let (mut raw, offsets) = crate::gen::bcf::to_bcf(&plain);
+        let start = offsets[0];
+        let end = if offsets.len() > 1 { offsets[1] } else { raw.len() };
+        let v = case.value as usize % 5;
+        let (key, field): (i32, Vec<u8>) = match case.field {
+            3 => (crate::gen::bcf::extra_idx(&plain, 0), {
+                let mut f = vec![0x21u8];
+                f.extend([1u8, 2, [0x80u8, 0x81, 0x82, 0x83, 0x87][v], 4, 5, 6]);
+                f
+            }),
+            4 => (crate::gen::bcf::extra_idx(&plain, 0), {
+                let mut f = vec![0x12u8];
+                for x in [300u16, [0x8000u16, 0x8001, 0x8002, 0x8003, 0x8007][v], 301] {
+                    f.extend(x.to_le_bytes());
+                }
+                f
+            }),
+            5 => (crate::gen::bcf::extra_idx(&plain, 0), {
+                let mut f = vec![0x13u8];
+                for x in [70_000u32, [0x8000_0000u32, 0x8000_0001, 0x8000_0002, 0x8000_0003, 0x8000_0007][v], 70_001] {
+                    f.extend(x.to_le_bytes());
+                }
+                f
+            }),
+            6 => (crate::gen::bcf::extra_idx(&plain, 0), {
+                let mut f = vec![0x23u8];
+                for x in [70_000u32, 5, [0x8000_0000u32, 0x8000_0001, 0x8000_0002, 0x8000_0003, 0x8000_0007][v], 6, 7, 8] {
+                    f.extend(x.to_le_bytes());
+                }
+                f
+            }),
+            _ => (crate::gen::bcf::extra_idx(&plain, 2), {
+                let mut f = vec![0x25u8];
+                for x in [0x3e80_0000u32, 0x3f00_0000, [0x7f80_0001u32, 0x7f80_0002, 0x7f80_0003, 0x7f80_0007, 0x7fc0_0000][v], 0x3f00_0000, 0x3e80_0000, 0x3f40_0000] {
+                    f.extend(x.to_le_bytes());
+                }
+                f
+            }),
+        };
+        let mut appended = Vec::new();
+        crate::gen::bcf::typed_int(key, &mut appended);
+        appended.extend(field);
+        // l_indiv grows, n_fmt (top byte of the sixth u32 of the shared block) goes from 1 to 2
+        let l_indiv = u32::from_le_bytes([raw[start + 4], raw[start + 5], raw[start + 6], raw[start + 7]]) + appended.len() as u32;
+        raw[start + 4..start + 8].copy_from_slice(&l_indiv.to_le_bytes());
+        raw[start + 8 + 23] += 1;
+        let tail = raw.split_off(end);
+        raw.extend(appended);
+        raw.extend(tail);
+        let bytes = if case.bgzf { crate::gen::bgzf::compress(&raw, &Layout::plain()).0 } else { raw };
+        std::fs::write(dir.join("reserved.bcf"), &bytes).expect("write");
+        let mut pass = Pass::new();
+        for c in [vec!["create"], vec!["create", "-s", "s1,s2"]] {
+            let mut argv: Vec<String> = c.iter().map(|s| s.to_string()).collect();
+            argv.push("reserved.bcf".into());
+            let run = cli::sfs(ctx, &argv, Input::Null, &dir);
+            let ex = judge(ctx, &run, &format!("`sfs {}` on a BCF whose appended {} field carries the reserved bit pattern no. {}", argv.join(" "), ["", "", "", "int8 vector", "int16 scalar", "int32 scalar", "int32 vector", "float vector"][case.field as usize % 8], case.value))?;
+            finish(&mut pass, ex, &run);
+        }
+        return Ok(pass);
+    }
     let at = raw[rec.clone()].windows(pattern.len()).position(|w| w == pattern.as_slice()).map(|p| p + rec.start);
     let Some(at) = at else {
         fail!("harness bug: field {} not found in the encoded record", case.field);
@@ -1218,11 +1287,11 @@ pub fn check(ctx: &Ctx) -> Check {
         }),
         Box::new(EnumPart {
             name: "reserved-values-in-format-fields",
-            rule: "a valid BCF (raw and BGZF) in which one value of a FORMAT field other than GT -- an int8 scalar, an int16 vector, a float -- is replaced by the type's missing / end-of-vector / reserved bit patterns (as htslib writes for missing values and padding, plus the reserved ones), through 3 create command lines",
+            rule: "a valid BCF (raw and BGZF) in which one value of a FORMAT field other than GT -- an int8 scalar, an int16 vector, a float as the generator writes them, and (appended by hand) an int8 vector, an int16 scalar, an int32 scalar, an int32 vector, a float vector -- is replaced by the type's missing / end-of-vector / reserved bit patterns (as htslib writes for missing values and padding, plus the reserved ones), through 3 create command lines",
             exhaustive: true,
             cases: Box::new(|_| {
                 let mut v = Vec::new();
-                for field in 0..3u8 {
+                for field in 0..8u8 {
                     for value in 0..5u8 {
                         for bgzf in [false, true] {
                             v.push(ReservedCase { field, value, bgzf });
